@@ -79,3 +79,25 @@ Example ex_pops_result :
   ops_plain ex_pops ex_pplain =
   [(0%Z, 400000000%Z, [[65]%N]); (1500000000%Z, 5500000000%Z, [[72; 105]%N]); (6500000000%Z, 7500000000%Z, [[89; 111]%N])].
 Proof. vm_compute. reflexivity. Qed.
+
+(* the command-line tool: whatever the sub-command and its (valid) flags, the output file reads back as the sub-command's
+   operation applied to the source cues *)
+From Astisub Require Import Model.Cli.
+Theorem cli_pair uA okA encA decA uB okB encB decB :
+  plain_faithful uA okA encA decA -> plain_faithful uB okB encB decB ->
+  forall a ops p, cli_ops a = Ok ops -> okA p -> okB (ops_plain ops (ptrunc uA p)) ->
+  exists src dst, encA p = Ok src /\ cli_run decA encB a src = Ok dst /\
+                  decB dst = Ok (ptrunc uB (ops_plain ops (ptrunc uA p))).
+Proof.
+  intros HA HB a ops p Ha Hp Hq. destruct (plain_ops_pair _ _ _ _ _ _ _ _ HA HB ops p Hp Hq) as (src & dst & H1 & H2 & H3).
+  exists src, dst. split; [exact H1|]. split; [|exact H3]. unfold cli_run. rewrite Ha. exact H2.
+Qed.
+(* a sub-command applies at most one operation; invalid flags are refused before anything is written *)
+Lemma cli_ops_at_most_one a ops : cli_ops a = Ok ops -> (length ops <= 1)%nat.
+Proof.
+  unfold cli_ops. destruct (c_cmd a); try (intros H; inversion H; cbn; auto; fail).
+  - destruct ((c_a1 a <=? 0)%Z || (c_d1 a <=? 0)%Z || (c_a2 a <=? 0)%Z || (c_d2 a <=? 0)%Z); intros H; inversion H; cbn; auto.
+  - destruct (c_f a <=? 0)%Z; intros H; inversion H; cbn; auto.
+  - destruct (c_second a); intros H; inversion H; cbn; auto.
+  - destruct (c_s a =? 0)%Z; intros H; inversion H; cbn; auto.
+Qed.
